@@ -30,8 +30,8 @@ def spec(cls, fp, xs):
         yield g, (t >= fp["min_num_instances"] and g > fp["lambda_"])
 
 
-def scale(xs):
-    return max([1.0] + [abs(v) for v in xs])
+def scale(xs, floor=1.0):
+    return max([floor] + [abs(v) for v in xs])
 
 
 def check(out: Outcome, cls: str, p: dict, xs: list, runners: list) -> None:
@@ -39,7 +39,8 @@ def check(out: Outcome, cls: str, p: dict, xs: list, runners: list) -> None:
     r = dets.Runner("a", cls, p)
     if r.det is None:
         return
-    sc = scale([v for v in xs if v != "r"])
+    # the statistic is built from the values and delta only: the tolerance follows THEIR scale (no floor at 1: streams of magnitude 1e-13 are streams too)
+    sc = scale([v for v in xs if v != "r"], floor=max(abs(fp.get("delta", 0.0)), 1e-300))
     fired = False
     full = xs
     segs, cur = [], []
